@@ -72,7 +72,7 @@ func checkC09(c *Ctx) {
 	c9Blocking(c)
 	c9EncoderPurity(c, "R9.6")
 	c.Rule("R9.8", "no object is touched after it went back to its pool (the next owner may be another goroutine), and derived handlers/cores never share a slice tail with their parent", 8)
-	c8UseAfterRelease(c, "R9.8", c8ReleaseFns())
+	c8UseAfterRelease(c, "R9.8", c8ReleaseFns(c))
 	for _, m := range []string{"WithAttrs", "WithGroup"} {
 		if fn := c.Method(SlogPath, "Handler", m); fn != nil {
 			c7Appends(c, "R9.8", fn)
